@@ -184,7 +184,9 @@ async def eager_sequences(loop, kind, pres, out, stats, fps, samples):
                     else:
                         ci += 1
                         steps_pre.append(["callback", f"c{ci}-{'async' if ch == 'A' else ('shared' if ch == 'B' else 'sync')}"])
-                st = {"do": "eager", "action": action, "pre": steps_pre, "then": {"do": "ok"}}
+                # (a rejected / period-less rescheduled message comes straight back: that execution answers through ITS handle,
+                # while the first execution's handle is still referenced somewhere)
+                st = {"do": "eager", "action": action, "pre": steps_pre, "keep_handle": True, "then": {"do": "eager", "action": "ack", "pre": [], "keep_handle": True}}
                 if action in ("retry", "force_retry"):
                     st["next"] = 3600.0
                 plan[id_] = (pre, action)
@@ -274,6 +276,11 @@ async def eager_sequences(loop, kind, pres, out, stats, fps, samples):
                 out.append(V("wrong_broker_calls", kind, ctx, f"{pre!r}+{action}: first terminal call {first_call}"))
             if len(disp) > 1:
                 out.append(V("extra_disposition", kind, ctx, f"{pre!r}+{action}: terminal calls {disp}"))
+            if action in ("reject", "reschedule"):
+                stats["second_executions_through_a_fresh_handle"] += 1
+                later = [e["op"] for e in ev if e["n"] >= nxt_delivery and e["k"] == "call" and e.get("depth") == 0 and e.get("op") in ("ack", "nack", "reject", "requeue")]
+                if later[:1] != ["ack"]:
+                    out.append(V("second_action_succeeded" if not later else "wrong_broker_calls", kind, f"{ctx}/redelivered-execution", f"{pre!r}+{action}: the redelivered message's execution answered with ack() through its own handle; terminal calls after the redelivery: {later} (expected ['ack'])"))
             # the stored bucket is the latest set_*
             latest = next((ch for ch in reversed(pre) if ch in "RE"), None)
             stores = [e for e in seg if e["k"] == "call" and e.get("op") == "store_bucket"]
